@@ -657,6 +657,15 @@ static void visit_call(const json& v)
                 cs);
         else
             rep.ok("visit-end");
+        // C05: the cursor-based size after a full traversal is the encoded size
+        if(cursor_size_slot() != size)
+            rep.mismatch(
+                std::string("visit/cursor-size") + tail,
+                "size_bytes(message, cursor) after a complete traversal = "
+                    + std::to_string(cursor_size_slot()) + ", image length " + std::to_string(size),
+                cs);
+        else
+            rep.ok("visit-cursor-size");
     }
 }
 
